@@ -75,9 +75,16 @@ func (h *holder) block(f func()) {
 			// If we are still blocked, re-acquire. Otherwise, we just got got released
 			// (and that release used our token we gave up), and should no longer try to
 			// re-acquire.
-			if atomic.CompareAndSwapInt64(&h.status, blocked, acquired) {
-				vh("unblock.cas", h)
-				h.l.ch <- struct{}{}
+			if atomic.LoadInt64(&h.status) != blocked {
+				return
+			}
+			// Take the spot in ch before publishing the acquired status: a concurrent
+			// release that observes acquired receives from ch right away, and must
+			// find our item there rather than one that belongs to another holder.
+			h.l.ch <- struct{}{}
+			if !atomic.CompareAndSwapInt64(&h.status, blocked, acquired) {
+				// Released while we were re-acquiring; give the spot back.
+				<-h.l.ch
 			}
 		}()
 	}
